@@ -118,6 +118,17 @@ def private_part_of(M, q, gate_quals):
     return True
 
 
+def io_names(ctx):
+    """names of the two private hooks through which DataSet.__getitem__ / __setitem__ reach the data ('_read_data',
+    '_write_data' unless a refactoring renamed them: then the private method the public operator calls)"""
+    out = []
+    for default, op in (("_read_data", "__getitem__"), ("_write_data", "__setitem__")):
+        f = private_helper(ctx, "DataSet", default, [("DataSet", op, "methods")],
+                           pick=lambda h: h.cls is not None and h.cls.name == "DataSet")
+        out.append(f.node.name if f is not None else default)
+    return tuple(out)
+
+
 def tree_finders(ctx):
     """the two breadth-first tree searches {"sections": Func, "sources": Func}: by name, else the private function the
     public find_sections / find_sources members call"""
